@@ -391,16 +391,16 @@ def increaseUser (s : St) (user amount : Nat) : St :=
 def checkAndUpdate (s : St) (user : Nat) : List (Nat × Nat) → Option St
   | [] => some s
   | (n, a) :: rest => do
-      let at ← s.attrs n
-      let s1 := if at.owner ≠ user then increaseUser (decreaseOwner s at.owner a) user a else s
+      let att ← s.attrs n
+      let s1 := if att.owner ≠ user then increaseUser (decreaseOwner s att.owner a) user a else s
       checkAndUpdate s1 user rest
 
 /-- `merge_attributes_from_payments(base, payments)` -/
 def mergeParts (s : St) (base : Attr) : List (Nat × Nat) → Option Attr
   | [] => some base
   | (n, a) :: rest => do
-      let at ← s.attrs n
-      let part ← at.intoPart a
+      let att ← s.attrs n
+      let part ← att.intoPart a
       let m ← base.mergeWith part
       mergeParts s m rest
 
@@ -575,14 +575,14 @@ def exitFarm (s : St) (caller : Nat) (opt : Option Nat) (n a : Nat) : Option (St
   let s0 ← takePayments s caller [(n, a)]
   let c := Cache.read s0
   req s0.active
-  let at ← s0.attrs n
+  let att ← s0.attrs n
   let (s1, c1) ← generate s0 c
-  let part ← at.intoPart a
+  let part ← att.intoPart a
   let base := baseReward s1.dsc c1.rps a part.rps
   let (s2, boosted) ← claimBoostedYields s1 orig
   let reward := base + boosted
   let res ← sub? c1.reserve reward
-  let s3 := decreaseOwner s2 at.owner a
+  let s3 := decreaseOwner s2 att.owner a
   let sup ← sub? c1.supply part.amt
   let c2 : Cache := { c1 with reserve := res, supply := sup }
   let s4 ← setFarmSupplyWeek s3 c2.supply
